@@ -43,7 +43,9 @@ RULE = ('generated projects (static/shared/dual libraries, executables using the
         'the shapes include copy_file of GENERATED files in the modes copy / symlink / hardlink (a symbolic link always, a link to a link, '
         'links in other directories) with steps consuming the link, and a versioned shared library (real file, soname link, development '
         'link) with an executable linking it; an output counts as re-created when its own time stamp (lstat) or that of the file it '
-        'denotes (stat) changed')
+        'denotes (stat) changed; command() / build_step() with SEVERAL command lines (cmds=) whose file objects - source files and '
+        'generated files - are named in one or two of the lines (first only, a middle one only, last only, first and last), in W:emit '
+        '(vs Steps.command_lines_extra_deps and vs the declared consumption) and in the dependency-shape projects')
 TRUSTED = ('mtime build semantics: the real GNU Make 4.3 (system level); Make/MakeSem.v model for the generic theorems',
            'Graph/StampSem.v dmake (depth-first walk with cached mtimes; recipe kinds none / real / no-op, lag of the stamp) validated '
            'against GNU Make 4.3 on this run (R:stampsem, both rule shapes); which no-op recipes Make ran is read from make --trace '
@@ -313,6 +315,8 @@ def real_script(rng, rep, ctx, build):
         return rng.sample(pool, min(len(pool), rng.randint(lo, hi)))
 
     def name(x):
+        if isinstance(x, list):
+            return [name(y) for y in x]
         return x if isinstance(x, str) else '<%s>' % keyer.key(x)
 
     def call(fn, *a, **kw):
@@ -329,26 +333,41 @@ def real_script(rng, rep, ctx, build):
         extra = some(produced + plain + [ctx['generic_file']('loose%d.txt' % idx)], 0, 2)
         files = some(produced + [ctx['generic_file']('in%d.dat' % idx)], 0, 2)
         cmd = ['tool'] + [x for n in nodes for x in (rng.choice(['-x', '--in']), n)][:2 * len(nodes)]
+        # one command line (cmd=, or cmds= with one line) or several (cmds=[line, line, ...]): every file object is named
+        # in one or two of the lines - the first only, a middle one only, the last only, the first and the last, ... -;
+        # what a step consumes does not depend on WHICH of its command lines names the file
+        nlines = rng.choice([1, 1, 2, 3, 3])
+        if nlines == 1:
+            lines = [cmd]
+            cmdkw = {'cmd': cmd} if rng.random() < 0.7 else {'cmds': [cmd]}
+        else:
+            lines = [['tool%d' % j] for j in range(nlines)]
+            for n in nodes:
+                for j in sorted(rng.sample(range(nlines), rng.choice([1, 1, 2]))):
+                    lines[j] += [rng.choice(['-x', '--in']), n]
+            cmdkw = {'cmds': lines}
+        line_nodes = [[n for n in line if not isinstance(n, str)] for line in lines]
+        rep.count('w-emit:command lines=%d, file objects per line %r' % (nlines, [len(l) for l in line_nodes]))
         if kind == 'command':
-            out = ctx['command']('cmd%d' % idx, cmd=cmd, files=files, extra_deps=extra)
+            out = ctx['command']('cmd%d' % idx, files=files, extra_deps=extra, **cmdkw)
             e = out.creator
             outs = [out]
-            text = call('command', 'cmd%d' % idx, cmd=cmd, files=files, extra_deps=extra)
+            text = call('command', 'cmd%d' % idx, files=files, extra_deps=extra, **cmdkw)
         else:
             k = rng.choice([1, 1, 2, 2, 3])
             dirs = rng.choice([[''] * 3, ['g/'] * 3, ['g/', 'h/', 'g/'], ['', 'g/k/', 'h/']])
             names = ['%sbs%d_%d.%s' % (dirs[j], idx, j, rng.choice(['c', 'h', 'txt'])) for j in range(k)]
             ao = rng.random() < 0.25
-            out = ctx['build_step'](names if k > 1 else names[0], cmd=cmd, files=files, extra_deps=extra, always_outdated=ao)
+            out = ctx['build_step'](names if k > 1 else names[0], files=files, extra_deps=extra, always_outdated=ao, **cmdkw)
             outs = list(out) if k > 1 else [out]
             e = outs[0].creator
             produced.extend(outs)
-            text = call('build_step', names, cmd=cmd, files=files, extra_deps=extra, always_outdated=ao)
+            text = call('build_step', names, files=files, extra_deps=extra, always_outdated=ao, **cmdkw)
             rep.count('w-emit:build_step outputs=%d' % k)
         named = [n for n in nodes if getattr(n, 'creator', None) or not e.phony]
         for o in outs:
             decl.append((o, set(files) | set(extra) | set(named), text))
-        cmdnodes.append((e, [(n, bool(getattr(n, 'creator', None))) for n in nodes], extra))
+        cmdnodes.append((e, [[(n, bool(getattr(n, 'creator', None))) for n in l] for l in line_nodes], extra))
 
     def includes_for():
         incs = some(hdrs + [p for p in produced if isinstance(p, file_types.HeaderFile)], 0, 2)
@@ -669,10 +688,14 @@ def stage_w_emit(rep, rng, n, tag='W:emit'):
             bad += rep.fail('buildable targets differ between the Make and Ninja handlers: only make %r, only ninja %r' % (
                 sorted(tm - tn), sorted(tn - tm)), {'kind': 'handler-targets', 'only_make': sorted(tm - tn), 'only_ninja': sorted(tn - tm)})
         # BaseCommand.__init__ / Test.__init__: which command-line nodes become dependencies
-        for e, nodes, extra in cmdnodes:
-            calls.append(('emit.command_extra_deps', [bool(e.phony), [[nm.id(x), c] for x, c in nodes], [nm.id(x) for x in extra]]))
+        for e, lines_, extra in cmdnodes:
+            if len(lines_) == 1:
+                calls.append(('emit.command_extra_deps', [bool(e.phony), [[nm.id(x), c] for x, c in lines_[0]], [nm.id(x) for x in extra]]))
+            else:
+                calls.append(('emit.command_lines_extra_deps', [bool(e.phony), [[[nm.id(x), c] for x, c in l] for l in lines_],
+                                                                [nm.id(x) for x in extra]]))
             impl.append([nm.key(x) for x in e.extra_deps]); metas.append(nm)
-            rep.count('w-emit:cmd nodes phony=%s' % bool(e.phony))
+            rep.count('w-emit:cmd nodes phony=%s lines=%d' % (bool(e.phony), len(lines_)))
         for t, cmd in tests_decl:
             calls.append(('emit.test_inputs', [[[nm.id(x), bool(getattr(x, 'creator', None))] for x in cmd]]))
             impl.append([nm.key(x) for x in t.inputs]); metas.append(nm)
